@@ -32,3 +32,62 @@ func VerifLemma_C13A_Validate() {
 	verifAssert(len(p) > 0 && p[0] != '/', "accepted path is relative and non-empty")
 	verifAssert(Normalize(p) == p, "accepted path is normalized")
 }
+
+// VerifLemma_C13A_ValidateExact: the verdict of NormalizeAndValidate is exactly "the cleaned path (independent
+// component-stack reference refClean, c14.go) is relative and does not start with a .. component" - so nothing
+// hostile is accepted and nothing harmless is rejected ("good case still works").
+func VerifLemma_C13A_ValidateExact() {
+	s := verifNondetString(verifParam("N"))
+	want := refClean(s)
+	hostile := want[0] == '/' || want == ".." || (len(want) >= 3 && want[0] == '.' && want[1] == '.' && want[2] == '/')
+	p, err := NormalizeAndValidate(s)
+	verifCover("validated")
+	verifAssert((err != nil) == hostile, "rejected exactly when the cleaned path is absolute or starts with ..")
+	if err == nil {
+		verifAssert(p == want, "accepted path is the reference cleaned path")
+	} else {
+		verifAssert(p == "", "no path is returned with an error")
+	}
+	// harmless spellings: no leading '/', no ".." component anywhere => always accepted
+	if len(s) > 0 && s[0] != '/' && refNoDotDotComponent(s) {
+		verifCover("harmless")
+		verifAssert(err == nil, "a relative path without .. components is accepted")
+	}
+}
+
+// VerifLemma_C13A_Component: ValidatePathComponent(c)=nil => c is non-empty, has no '/' and no "..", hence
+// Join(root, c) is a direct child of root for a validated root; plain names are accepted.
+func VerifLemma_C13A_Component() {
+	c := verifNondetString(verifParam("N"))
+	err := ValidatePathComponent(c)
+	verifCover("checked")
+	plain := len(c) > 0
+	for i := 0; i < len(c); i++ {
+		ch := c[i]
+		if !((ch >= 'a' && ch <= 'z') || (ch >= '0' && ch <= '9') || ch == '_' || ch == '-') {
+			plain = false
+		}
+	}
+	if plain {
+		verifAssert(err == nil, "a plain name is a valid component")
+	}
+	if err != nil {
+		return
+	}
+	verifCover("accepted component")
+	verifAssert(len(c) > 0, "accepted component is non-empty")
+	for i := 0; i < len(c); i++ {
+		verifAssert(c[i] != '/', "accepted component has no slash")
+		if i+1 < len(c) {
+			verifAssert(!(c[i] == '.' && c[i+1] == '.'), "accepted component has no ..")
+		}
+	}
+	root := vcNormalizedValidated(verifParam("ROOT"))
+	j := Join(root, c)
+	if c == "." {
+		verifAssert(j == root, "joining the component . stays at the root")
+		return
+	}
+	verifAssert(refEqualsOrContains(root, j) && j != root, "Join(root, component) is strictly inside root")
+	verifAssert(refNoDotDotComponent(j), "Join(root, component) has no .. component")
+}
